@@ -580,6 +580,12 @@ struct LoadWorld : World {
                     imp = mutate_text(r, imp, "jsgf_file", nullptr);
                 op.set("import", imp);
             }
+            // the other doors into the same readers: the "fsg"/"jsgf" configuration keys at decoder_init, and the
+            // buffer-based initialisation sequence of the JavaScript binding
+            if ((kind == "fsg_file" || kind == "jsgf_file") && r.chance(0.15))
+                op.set("via", "config");
+            if ((kind == "fsg_buf" || kind == "jsgf_string") && r.chance(0.2))
+                op.set("via", "s3file");
             ops.push(op);
         }
         p.set("ops", ops);
@@ -780,7 +786,29 @@ struct LoadWorld : World {
                 }
             }
             int rv = -99;
-            if (kind == "jsgf_string") {
+            const std::string via = op.gets("via");
+            if (via == "config" && (kind == "fsg_file" || kind == "jsgf_file")) {
+                config_t *c = make_config("en");
+                config_set_str(c, kind == "fsg_file" ? "fsg" : "jsgf", path.c_str());
+                decoder_t *d2 = decoder_init(c); // consumes c
+                rv = d2 ? 0 : -1;
+                if (d2) {
+                    use_grammar(d2, out);
+                    decoder_free(d2);
+                }
+                out.probes["c10.via_config_key"]++;
+            } else if (via == "s3file" && (kind == "fsg_buf" || kind == "jsgf_string")) {
+                char *buf = (char *)malloc(text.size() + 1); // the binding hands over NUL-terminated text
+                memcpy(buf, text.data(), text.size());
+                buf[text.size()] = 0;
+                s3file_t *f = s3file_init(buf, text.size());
+                rv = kind == "fsg_buf" ? decoder_init_grammar_s3file(d, f, NULL) : decoder_init_grammar_s3file(d, NULL, f);
+                s3file_free(f);
+                free(buf);
+                if (rv == 0)
+                    use_grammar(d, out);
+                out.probes["c10.via_s3file"]++;
+            } else if (kind == "jsgf_string") {
                 rv = decoder_set_jsgf_string(d, text.c_str());
                 if (rv == 0)
                     use_grammar(d, out);
